@@ -14,6 +14,8 @@ pub struct Report {
     pub samples: Vec<String>,
     pub stats: BTreeMap<String, f64>,
     pub nviol: u64,
+    pub per_class: BTreeMap<String, u64>,
+    pub only_panics: bool,
 }
 
 pub fn jstr(s: &str) -> String {
@@ -40,6 +42,8 @@ impl Report {
             samples: vec![],
             stats: BTreeMap::new(),
             nviol: 0,
+            per_class: BTreeMap::new(),
+            only_panics: false,
         }
     }
     /// count `n` evaluated cases for a clause
@@ -59,8 +63,14 @@ impl Report {
         }
     }
     pub fn violation(&mut self, class: &str, clause: &str, input: &str, expected: &str, observed: &str) {
+        if self.only_panics && !(class.contains("panic") || observed.contains("PANIC") || class == "coeff-slope-radicand-negative" || class == "coeff-nonfinite") {
+            return; // C20 is about panics (and non-finite builder output) only; value clauses belong to the other properties
+        }
         self.nviol += 1;
-        if self.nviol <= 200 {
+        // print at most 40 records per class, so that a new class is never crowded out by a known one
+        let k = self.per_class.entry(class.to_string()).or_insert(0);
+        *k += 1;
+        if *k <= 40 {
             println!(
                 "{{\"kind\":\"violation\",\"class\":{},\"clause\":{},\"input\":{},\"expected\":{},\"observed\":{}}}",
                 jstr(class),
@@ -113,6 +123,11 @@ pub fn run(prop: &str, tier: &str, seed: u64, hints: Option<&str>) {
     match prop {
         "C17" => c17(&mut rng, thorough, &hints, &mut rep),
         "C01" => c01(&mut rng, thorough, &hints, &mut rep),
+        "C07" => c07(&mut rng, thorough, &hints, &mut rep),
+        "C08" => c08(&mut rng, thorough, &hints, &mut rep),
+        "C09" => c09(&mut rng, thorough, &hints, &mut rep),
+        "C11" => c11(&mut rng, thorough, &hints, &mut rep),
+        "C20" => c20(&mut rng, thorough, &hints, &mut rep),
         "C02" => c02(&mut rng, thorough, &hints, &mut rep),
         "C19" => c19(&mut rng, thorough, &hints, &mut rep),
         "C14" => c14(&mut rng, thorough, &hints, &mut rep),
@@ -249,6 +264,32 @@ fn c17(rng: &mut Rng, thorough: bool, hints: &[Vec<String>], rep: &mut Report) {
             rep.sample(format!("Unwrapper<i32> i16 samples {:?} -> y={}", &hist[..hist.len().min(6)], u.y()));
         }
     }
+    // injected states at the boundary of the wide type: the accumulator itself wraps, nothing may panic
+    for i in 0..20000 {
+        let y0 = if i % 2 == 0 { i32::MAX - rng.below(70000) as i32 } else { i32::MIN + rng.below(70000) as i32 };
+        let x: i16 = rng.i16();
+        let mut u = Unwrapper::<i32>::verif_from_raw(y0);
+        match guard(|| { let dx: i16 = u.update(x); (dx, u.y()) }) {
+            None => rep.violation("unwrapper", "single step from a state near the wide type's boundary (wraps, no panic)", &format!("Unwrapper<i32>{{y:{}}}.update({}i16)", y0, x), "wrapped increment, y + dx (mod 2^32), tracks sample", "PANIC"),
+            Some((dx, y)) => {
+                if dx != x.wrapping_sub(y0 as i16) || y != y0.wrapping_add(dx as i32) || y as i16 != x {
+                    rep.violation("unwrapper", "single step from a state near the wide type's boundary", &format!("Unwrapper<i32>{{y:{}}}.update({}i16)", y0, x), "wrapped increment, y + dx (mod 2^32), tracks sample", &format!("dx={} y={}", dx, y));
+                }
+            }
+        }
+        let y0 = if i % 2 == 0 { i64::MAX - rng.below(1 << 33) as i64 } else { i64::MIN + rng.below(1 << 33) as i64 };
+        let x: i32 = rng.i32();
+        let mut u = Unwrapper::<i64>::verif_from_raw(y0);
+        match guard(|| { let dx: i32 = u.update(x); (dx, u.y()) }) {
+            None => rep.violation("unwrapper", "single step from a state near the wide type's boundary (wraps, no panic)", &format!("Unwrapper<i64>{{y:{}}}.update({}i32)", y0, x), "wrapped increment, y + dx (mod 2^64), tracks sample", "PANIC"),
+            Some((dx, y)) => {
+                if dx != x.wrapping_sub(y0 as i32) || y != y0.wrapping_add(dx as i64) || y as i32 != x {
+                    rep.violation("unwrapper", "single step from a state near the wide type's boundary", &format!("Unwrapper<i64>{{y:{}}}.update({}i32)", y0, x), "wrapped increment, y + dx (mod 2^64), tracks sample", &format!("dx={} y={}", dx, y));
+                }
+            }
+        }
+    }
+    rep.count("unwrapper-boundary-states", 40000);
     // injected-state hints
     for h in hints {
         if h[0] == "unwrap" && h.len() == 5 {
@@ -275,14 +316,17 @@ fn c17(rng: &mut Rng, thorough: bool, hints: &[Vec<String>], rep: &mut Report) {
     for _ in 0..nacc {
         let (s, st) = (rng.i32(), rng.i32());
         let n = 1 + rng.below(100) as usize;
-        let got: Vec<i32> = Accu::new(s, st).take(n).collect();
+        let Some(got) = guard(|| Accu::new(s, st).take(n).collect::<Vec<i32>>()) else {
+            rep.violation("accu", "n-th item = start + n*step mod 2^32; never ends (wrapping, no panic)", &format!("Accu::new({}, {}).take({})", s, st, n), "arithmetic progression", "PANIC");
+            continue;
+        };
         let okl = got.len() == n;
         let okv = got.iter().enumerate().all(|(i, v)| *v == (s as i128 + i as i128 * st as i128) as i32);
         if !(okl && okv) {
             rep.violation("accu", "n-th item = start + n*step mod 2^32; never ends", &format!("Accu::new({}, {}).take({})", s, st, n), "arithmetic progression", &format!("{:?}", &got[..got.len().min(8)]));
         }
         let (s, st) = (rng.i8(), rng.i8());
-        let got: Vec<i8> = Accu::new(s, st).take(300).collect();
+        let got: Vec<i8> = guard(|| Accu::new(s, st).take(300).collect()).unwrap_or_default();
         if !(got.len() == 300 && got.iter().enumerate().all(|(i, v)| *v == (s as i128 + i as i128 * st as i128) as i8)) {
             rep.violation("accu", "n-th item = start + n*step mod 2^8; never ends", &format!("Accu::<i8>::new({}, {})", s, st), "arithmetic progression", &format!("{:?}", &got[..got.len().min(8)]));
         }
@@ -1152,8 +1196,9 @@ macro_rules! c13_case {
         }
         rep.count("cic-int-samples", held.len() as u64);
         rep.distinct += 1;
-        // settle_interpolate: fixed point, equals the state reached by feeding x for ever
-        let mut a = Cic::<$t, NN>::new(rate);
+        // settle_interpolate: fixed point, equals the state reached by feeding x for ever;
+        // `c` has just processed an arbitrary history: settling from there must give the same state as from new()
+        let mut a = if li > 0 && held.len() % r == 0 { c.clone() } else { Cic::<$t, NN>::new(rate) };
         if guard(|| a.settle_interpolate(x0)).is_some() {
             let before = a.verif_raw();
             let mut ok = true;
@@ -1626,6 +1671,34 @@ fn c04(rng: &mut Rng, thorough: bool, hints: &[Vec<String>], rep: &mut Report) {
             7 => windup_case!(i32, 32, 30, 2, rng, rep),
             _ => windup_case!(i16, 16, 14, 2, rng, rep),
         }
+    }
+    // floats with a summing-junction offset: every output within the limits, all three state forms
+    for _ in 0..m {
+        let ba: [f64; 5] = [rng.range(-200, 200) as f64 / 50.0, rng.range(-200, 200) as f64 / 50.0, rng.range(-100, 100) as f64 / 50.0, rng.range(-100, 100) as f64 / 60.0, rng.range(-50, 50) as f64 / 60.0];
+        let mut bq = idsp::iir::Biquad::<f64>::from(ba);
+        let mut bq32 = idsp::iir::Biquad::<f32>::from([ba[0] as f32, ba[1] as f32, ba[2] as f32, ba[3] as f32, ba[4] as f32]);
+        let (a, b) = (rng.range(-100, 100) as f64 / 10.0, rng.range(-100, 100) as f64 / 10.0);
+        let (mn, mx) = (a.min(b), a.max(b));
+        let u = rng.range(-300, 300) as f64 / 10.0;
+        bq.set_u(u);
+        bq.set_min(mn);
+        bq.set_max(mx);
+        bq32.set_u(u as f32);
+        bq32.set_min(mn as f32);
+        bq32.set_max(mx as f32);
+        let (mut s4, mut s5, mut s2) = ([0f64; 4], [0f64; 5], [0f64; 2]);
+        let (mut t4, mut t5, mut t2) = ([0f32; 4], [0f32; 5], [0f32; 2]);
+        for j in 0..24 {
+            let x = rng.range(-1000, 1000) as f64 / 50.0;
+            let ys = [bq.update(&mut s4, x), bq.update(&mut s5, x), bq.update(&mut s2, x)];
+            let zs = [bq32.update(&mut t4, x as f32), bq32.update(&mut t5, x as f32), bq32.update(&mut t2, x as f32)];
+            let bad = ys.iter().any(|y| !(mn <= *y && *y <= mx)) || zs.iter().any(|z| !(mn as f32 <= *z && *z <= mx as f32));
+            if bad {
+                rep.violation("biquad-limits-float", "min <= y <= max in all state forms and sample types (float, with offset)", &format!("Biquad<f64/f32> ba={:?} u={} limits [{}, {}] step {} x={}", ba, u, mn, mx, j, x), "within limits", &format!("{:?} {:?}", ys, zs));
+                break;
+            }
+        }
+        rep.count("float-limit-runs", 1);
     }
     // floats: limits and wind-up, bit-exact between durations
     for _ in 0..(m / 4) {
@@ -2167,3 +2240,529 @@ fn c15(rng: &mut Rng, thorough: bool, _hints: &[Vec<String>], rep: &mut Report) 
     }
     rep.sample("HbfIntCascade depth 4 impulse response: 907 samples, symmetric".into());
 }
+
+// ------------------------------------------------------------------ C07 (RPLL)
+/// returns (worst relative frequency error, worst phase error in turns) over the last `tail` updates
+fn rpll_run(dt2: u32, sf: u32, sp: u32, p: i64, off: i64, t0: i64, tail: u64, start: Option<(i32, u32, u32, i32)>) -> Option<(f64, f64)> {
+    let n = (1u64 << (sf - dt2 + 5)) + (1u64 << (sp - dt2 + 5));
+    let mut r = match start {
+        None => RPLL::new(dt2),
+        Some((x, ff, f, y)) => RPLL::verif_from_raw(dt2, x, ff, f, y),
+    };
+    let mut next = t0 + off;
+    let mut time = t0;
+    let (mut wf, mut wp) = (0f64, 0f64);
+    let ftrue = (1u128 << (32 + dt2)) as f64 / p as f64;
+    for i in 0..(n + tail) {
+        let ts = if time >= next {
+            let t = next;
+            next += p;
+            Some(t as i32)
+        } else {
+            None
+        };
+        let (y, f) = guard(|| r.update(ts, sf, sp))?;
+        if (y, f) != (r.phase(), r.frequency()) {
+            return None;
+        }
+        if i >= n {
+            let ef = ((f as f64) - ftrue).abs() / ftrue;
+            let ph = ((time - (next - p)) as f64 / p as f64).rem_euclid(1.0);
+            let yt = y as u32 as f64 / 4294967296.0;
+            let mut ep = (yt - ph).abs();
+            if ep > 0.5 {
+                ep = 1.0 - ep;
+            }
+            wf = wf.max(ef);
+            wp = wp.max(ep);
+        }
+        time += 1 << dt2;
+    }
+    Some((wf, wp))
+}
+
+fn c07(rng: &mut Rng, thorough: bool, _hints: &[Vec<String>], rep: &mut Report) {
+    let ncfg = if thorough { 3000 } else { 300 };
+    let max_span = if thorough { 17 } else { 13 }; // sf - dt2: the run takes 2^(sf-dt2+6) updates
+    let mut cfgs = vec![];
+    // the listed witness first
+    cfgs.push((8u32, 23u32, 22u32, 990i64, 351i64));
+    for i in 0..ncfg {
+        let dt2 = 2 + rng.below(10) as u32;
+        let sf = (dt2 + 1 + rng.below(max_span as u64) as u32).min(30);
+        let sp = if rng.chance(1, 2) { sf } else { sf - 1 };
+        if sp < dt2 {
+            continue;
+        }
+        let lo = (1i64 << dt2) + 1;
+        let hi = (1i64 << sf).min(1i64 << (sp + 1)) - 1;
+        if hi < lo {
+            continue;
+        }
+        let p = match i % 5 {
+            0 => lo,
+            1 => hi,
+            2 => ((1i64 << (dt2 + 1 + rng.below((sf - dt2) as u64) as u32)) + rng.range(-1, 1)).clamp(lo, hi),
+            _ => rng.range(lo, hi),
+        };
+        let off = match i % 3 { 0 => 0, 1 => p - 1, _ => rng.range(0, p - 1) };
+        cfgs.push((dt2, sf, sp, p, off));
+    }
+    let seeds: Vec<u64> = cfgs.iter().map(|_| rng.next()).collect();
+    let cfgs_ref = &cfgs;
+    let seeds_ref = &seeds;
+    par(cfgs.len() as u64, |c, l| {
+        let (dt2, sf, sp, p, off) = cfgs_ref[c as usize];
+        // start time so that timestamps cross the i32 boundary during the run, aligned to 2^dt2
+        let n = (1i64 << (sf - dt2 + 5)) + (1i64 << (sp - dt2 + 5));
+        let t0 = ((i32::MAX as i64) - (n / 2) * (1 << dt2) + (seeds_ref[c as usize] % 1000) as i64 * (1 << dt2)) & !((1i64 << dt2) - 1);
+        let inp = format!("RPLL::new({}) shift_frequency={} shift_phase={} period={} offset={} t0={}", dt2, sf, sp, p, off, t0);
+        l.count += 1;
+        match rpll_run(dt2, sf, sp, p, off, t0, 2000, None) {
+            None => l.violation("rpll-panic", "no panic within the timing contract; returned pair equals the getters", inp, "values".into(), "PANIC or pair != getters".into()),
+            Some((wf, wp)) => {
+                if wf <= 1e-5 && wp <= 1e-3 {
+                    return;
+                }
+                let pf = p as f64;
+                let good = pf >= 1.5 * (1u64 << dt2) as f64 && pf <= 0.6 * ((1u64 << sf).min(1u64 << (sp + 1))) as f64;
+                let e_p = 1.02 * 2f64.powi(sf as i32 + sp as i32 - dt2 as i32 - 33) / pf + 1e-3;
+                let e_f = 2.0 * 2f64.powi(sf as i32 - dt2 as i32 - 33) + 1e-5;
+                let class = if !good {
+                    "rpll-edge-of-admissible-region"
+                } else if wp <= e_p && wf <= e_f {
+                    "rpll-deadband-offset"
+                } else {
+                    "rpll-lock"
+                };
+                l.violation(class, "frequency within 1e-5 relative and phase within 1e-3 turns after 2^(sf-dt2+5)+2^(sp-dt2+5) updates", inp, format!("ef <= 1e-5, ep <= 1e-3 (dead-band envelopes {:.3e}, {:.3e})", e_f, e_p), format!("ef={:.3e} ep={:.3e}", wf, wp));
+            }
+        }
+    }, rep);
+    rep.distinct += cfgs.len() as u64;
+    rep.count("rpll-admissible-configurations", 0);
+    // contract: returned pair = getters, arbitrary states, None inputs never panic under the asserts
+    let n = if thorough { 2_000_000 } else { 200_000 };
+    for _ in 0..n {
+        let dt2 = rng.below(12) as u32;
+        let sf = dt2 + 1 + rng.below(19) as u32;
+        let sp = if rng.chance(1, 2) { sf } else { sf - 1 };
+        let mut r = RPLL::verif_from_raw(dt2, rng.i32(), rng.u32(), rng.u32(), rng.i32());
+        let (_, x0, _, _, _) = r.verif_raw();
+        // non-negative timestamp step (the contract) or None
+        let inp = if rng.chance(1, 2) { None } else { Some(x0.wrapping_add(rng.range(0, i32::MAX as i64) as i32)) };
+        let before = r.verif_raw();
+        match guard(|| r.update(inp, sf, sp)) {
+            None => rep.violation("rpll-panic", "no panic within the timing contract", &format!("RPLL{:?}.update({:?}, {}, {})", before, inp, sf, sp), "a value", "PANIC"),
+            Some(o) => {
+                if o != (r.phase(), r.frequency()) {
+                    rep.violation("rpll-getters", "returned pair equals the phase and frequency getters", &format!("RPLL{:?}.update({:?}, {}, {})", before, inp, sf, sp), &format!("{:?}", (r.phase(), r.frequency())), &format!("{:?}", o));
+                }
+            }
+        }
+    }
+    rep.count("rpll-single-steps", n);
+    rep.sample("RPLL::new(8) sf=23 sp=22 period=990 offset=351 (listed dead-band witness)".into());
+}
+
+// ------------------------------------------------------------------ C08 (PID builder)
+fn cplx_div(a: (f64, f64), b: (f64, f64)) -> (f64, f64) {
+    let d = b.0 * b.0 + b.1 * b.1;
+    ((a.0 * b.0 + a.1 * b.1) / d, (a.1 * b.0 - a.0 * b.1) / d)
+}
+fn poly2(c: [f64; 3], w: (f64, f64)) -> (f64, f64) {
+    // c0 + c1 w + c2 w^2
+    let w2 = (w.0 * w.0 - w.1 * w.1, 2.0 * w.0 * w.1);
+    (c[0] + c[1] * w.0 + c[2] * w2.0, c[1] * w.1 + c[2] * w2.1)
+}
+
+fn c08(rng: &mut Rng, thorough: bool, _hints: &[Vec<String>], rep: &mut Report) {
+    use idsp::iir::{Action, Order, PidBuilder};
+    let acts = [Action::I2, Action::I, Action::P, Action::D, Action::D2];
+    let n = if thorough { 400_000 } else { 40_000 };
+    for i in 0..n {
+        let dec = |rng: &mut Rng| -> f64 { 10f64.powi(rng.range(-9, 9) as i32) * (1.0 + rng.below(900) as f64 / 100.0) };
+        let period = 10f64.powi(rng.range(-6, 2) as i32) * (1.0 + rng.below(9) as f64);
+        let (order, oi) = [(Order::P, 2usize), (Order::I, 1), (Order::I2, 0)][rng.below(3) as usize];
+        let sign = if rng.chance(1, 4) { -1.0 } else { 1.0 };
+        let mut b = PidBuilder::<f64>::default();
+        b.period(period).order(order);
+        let mut gains = [0f64; 5];
+        let mut limits = [f64::INFINITY; 5];
+        let nolim = i % 3 == 0;
+        for (j, a) in acts.iter().enumerate() {
+            if rng.chance(1, 2) {
+                gains[j] = sign * dec(rng);
+                b.gain(*a, gains[j]);
+            }
+            if !nolim && rng.chance(1, 3) {
+                limits[j] = sign * dec(rng);
+                b.limit(*a, limits[j]);
+            }
+        }
+        let inp = format!("PidBuilder period={} order={:?} gains={:?} limits={:?}", period, order, gains, limits);
+        let c: [f64; 5] = b.build();
+        // expected g_i, l_i
+        let mut g = [0f64; 3];
+        let mut l = [0f64; 3];
+        for j in 0..3 {
+            let idx = oi + j;
+            let z = period.powi(2 - idx as i32);
+            g[j] = gains[idx] * z;
+            l[j] = if idx == 2 { 1.0 } else { g[j] / limits[idx] };
+        }
+        let lsum = l[0] + l[1] + l[2];
+        if c.iter().all(|v| v.is_finite()) && lsum.abs() > 1e-12 {
+            // transfer function at a few frequencies
+            for _ in 0..3 {
+                let w = std::f64::consts::PI * (rng.below(1000) as f64 + 0.5) / 1000.0;
+                let zi = (w.cos(), -w.sin());
+                let d = (1.0 - zi.0, -zi.1);
+                let d2 = (d.0 * d.0 - d.1 * d.1, 2.0 * d.0 * d.1);
+                let num = (g[0] + g[1] * d.0 + g[2] * d2.0, g[1] * d.1 + g[2] * d2.1);
+                let den = (l[0] + l[1] * d.0 + l[2] * d2.0, l[1] * d.1 + l[2] * d2.1);
+                let hb = poly2([c[0], c[1], c[2]], zi);
+                let ha = poly2([1.0, c[3], c[4]], zi);
+                // compare cross-multiplied to avoid poles: hb * den == num * ha
+                let lhs = (hb.0 * den.0 - hb.1 * den.1, hb.0 * den.1 + hb.1 * den.0);
+                let rhs = (num.0 * ha.0 - num.1 * ha.1, num.0 * ha.1 + num.1 * ha.0);
+                let scale = (hb.0.hypot(hb.1) * den.0.hypot(den.1)).max(num.0.hypot(num.1) * ha.0.hypot(ha.1)).max(1e-300);
+                let mag_terms = (c[0].abs() + c[1].abs() + c[2].abs()) * (l[0].abs() + 2.0 * l[1].abs() + 4.0 * l[2].abs()) + (g[0].abs() + 2.0 * g[1].abs() + 4.0 * g[2].abs()) * (1.0 + c[3].abs() + c[4].abs());
+                if (lhs.0 - rhs.0).hypot(lhs.1 - rhs.1) > 1e-9 * scale.max(mag_terms * 1e-3) {
+                    rep.violation("pid-transfer", "coefficients realise (g0+g1 D+g2 D^2)/(l0+l1 D+l2 D^2)", &format!("{} at w={}", inp, w), &format!("{:?}", cplx_div(num, den)), &format!("{:?}", cplx_div(hb, ha)));
+                    break;
+                }
+            }
+            rep.count("pid-transfer-points", 3);
+        }
+        if nolim {
+            let want: [f64; 2] = match oi { 2 => [0.0, 0.0], 1 => [-1.0, 0.0], _ => [-2.0, 1.0] };
+            let c32: Option<[f32; 5]> = guard(|| b.build());
+            let ok64 = c[3] == want[0] && c[4] == want[1];
+            let ok32 = c32.map(|c| c[3] as f64 == want[0] && c[4] as f64 == want[1]).unwrap_or(false);
+            if !ok64 || !ok32 {
+                rep.violation("pid-kernel", "no limits: feedback coefficients are exactly the integrator kernel (floats)", &inp, &format!("{:?}", want), &format!("{:?} {:?}", &c[3..], c32.map(|c| [c[3], c[4]])));
+            }
+            macro_rules! ik {
+                ($t:ty, $q:expr) => {{
+                    if let Some(ci) = guard(|| b.build::<$t>()) {
+                        let one: i128 = 1i128 << $q;
+                        let wi: [i128; 2] = match oi { 2 => [0, 0], 1 => [-one, 0], _ => [-2 * one, one] };
+                        if ci[3] as i128 != wi[0] || ci[4] as i128 != wi[1] {
+                            rep.violation("pid-kernel", "no limits: feedback coefficients are exactly the integrator kernel (fixed point)", &format!("{} as {}", inp, stringify!($t)), &format!("{:?}", wi), &format!("{:?}", &ci[3..]));
+                        }
+                    }
+                }};
+            }
+            ik!(i16, 14);
+            ik!(i32, 30);
+            ik!(i64, 62);
+            rep.count("pid-kernel", 5);
+        }
+        // order P, lone proportional gain builds exactly Biquad::proportional
+        if i % 7 == 0 {
+            let gp = sign * dec(rng).min(1.9);
+            let mut p = PidBuilder::<f64>::default();
+            p.order(Order::P).gain(Action::P, gp).period(period);
+            let bi: idsp::iir::Biquad<i32> = guard(|| p.build::<i32>()).map(|c| c.into()).unwrap_or_default();
+            let bf: idsp::iir::Biquad<f32> = p.build::<f32>().into();
+            if bi != idsp::iir::Biquad::proportional(<i32 as Coefficient>::quantize(gp)) || bf != idsp::iir::Biquad::proportional(gp as f32) {
+                rep.violation("pid-proportional", "order P with a lone proportional gain builds exactly Biquad::proportional", &format!("gain {} period {}", gp, period), "Biquad::proportional(quantize g)", &format!("{:?} {:?}", bi, bf));
+            }
+            rep.count("pid-proportional", 2);
+        }
+        rep.distinct += 1;
+    }
+    rep.sample("PidBuilder period=1 I=1e-3 P=1 D=1e2 limit I=1e3 D=1e1 (crate unit test)".into());
+}
+
+// ------------------------------------------------------------------ C09 (filter builders)
+fn hz(ba: &[[f64; 3]; 2], zi: (f64, f64)) -> ((f64, f64), (f64, f64)) {
+    (poly2(ba[0], zi), poly2(ba[1], zi))
+}
+
+fn c09(rng: &mut Rng, thorough: bool, _hints: &[Vec<String>], rep: &mut Report) {
+    let n = if thorough { 1_000_000 } else { 100_000 };
+    for i in 0..n {
+        let (f0, shape, sk, sv, gain, shelf) = crate::gen::coeff_params(rng);
+        let w0 = std::f64::consts::TAU * f0;
+        let typ = rng.below(9);
+        let mut f = idsp::iir::Filter::<f64>::default();
+        f.critical_frequency(f0).gain(gain).shelf(shelf).set_shape(shape);
+        let ba = crate::gen::coeff_build(&f, typ);
+        let names = ["lowpass", "highpass", "bandpass", "allpass", "notch", "peaking", "lowshelf", "highshelf", "iho"];
+        let inp = format!("Filter f0={} shape={:?} gain={} shelf={} .{}()", f0, shape, gain, shelf, names[typ as usize]);
+        rep.count("coeff-configs", 1);
+        let finite = ba.iter().flatten().all(|v| v.is_finite());
+        if !finite {
+            // steep slope at large |log shelf|: the cookbook radicand is negative
+            let a = shelf.sqrt();
+            let steep = sk == 2 && sv * (a - 1.0) * (a - 1.0) >= (shelf + 1.0) * (1.0 - 1e-9);
+            rep.violation(if steep { "coeff-slope-radicand-negative" } else { "coeff-nonfinite" }, "finite coefficients for in-range parameters", &inp, "finite", &format!("{:?}", ba));
+            continue;
+        }
+        let qi = {
+            // inverse Q as the model defines it
+            match sk {
+                0 => 1.0 / sv,
+                1 => 2.0 * (std::f64::consts::LN_2 / 2.0 * sv * w0 / w0.sin()).sinh(),
+                _ => { let a = shelf.sqrt(); ((a + 1.0 / a) * (1.0 / sv - 1.0) + 2.0).sqrt() }
+            }
+        };
+        let dc = hz(&ba, (1.0, 0.0));
+        let ny = hz(&ba, (-1.0, 0.0));
+        let c0 = hz(&ba, (w0.cos(), -w0.sin()));
+        let mag = |h: ((f64, f64), (f64, f64))| (h.0 .0.hypot(h.0 .1)) / (h.1 .0.hypot(h.1 .1));
+        let gdc = dc.0 .0 / dc.1 .0;
+        let gny = ny.0 .0 / ny.1 .0;
+        // rounding: 1 +- alpha loses alpha*eps absolutely; the DC / Nyquist denominators are 2 -+ 2 cos w0
+        let alpha = 0.5 * w0.sin() * qi;
+        let amp = 1e-6 + 1e-15 * alpha * (1.0 + 1.0 / (1.0 - w0.cos()) + 1.0 / (1.0 + w0.cos())) * (1.0 + shelf.sqrt() + 1.0 / shelf.sqrt());
+        if alpha * 2.220446049250313e-16 >= 0.25 * (1.0 - w0.cos().abs()) {
+            // the rounding error of 1 +- alpha (alpha * 2^-52) reaches the Jury margin a0 + a2 - |a1| = 2 - 2|cos w0|:
+            // in f64 the poles are no longer provably inside the unit circle (for alpha >= 2^53: a2 = -a0 exactly)
+            rep.violation("coeff-alpha-exceeds-f64-precision", "poles strictly inside the unit circle (f64 coefficients)", &inp, "|a2| < a0", &format!("alpha = {:e}, a = {:?}", alpha, ba[1]));
+            continue;
+        }
+        let close = |a: f64, b: f64| (a - b).abs() <= amp * a.abs().max(b.abs()).max(1e-300);
+        // numerically "zero": relative to the size of the terms that cancel
+        let numscale = (ba[0][0].abs() + ba[0][1].abs() + ba[0][2].abs()).max(1e-300);
+        let zero = |v: f64| v.abs() <= 1e-9 * numscale;
+        let g = gain;
+        let ok = match typ {
+            0 => close(gdc, g) && zero(ny.0 .0) && close(mag(c0), g.abs() / qi),
+            1 => close(gny, g) && zero(dc.0 .0) && close(mag(c0), g.abs() / qi),
+            2 => zero(dc.0 .0) && zero(ny.0 .0) && close(mag(c0), g.abs()),
+            3 => {
+                let w = rng.below(10000) as f64 / 10000.0 * std::f64::consts::PI;
+                close(mag(hz(&ba, (w.cos(), -w.sin()))), g.abs()) && close(gdc, g) && close(gny, g)
+            }
+            4 => close(gdc, g) && close(gny, g) && (c0.0 .0.hypot(c0.0 .1) <= 1e-9 * numscale),
+            5 => close(gdc, g) && close(gny, g) && close(mag(c0), g.abs() * shelf),
+            6 => close(gdc, g * shelf) && close(gny, g),
+            7 => close(gdc, g) && close(gny, g * shelf),
+            _ => (ba[1][0] + ba[1][1] + ba[1][2]).abs() <= 1e-12 * ba[1][0].abs() && close(gny, g * shelf),
+        };
+        if !ok {
+            rep.violation("coeff-response", "defining response identities at DC / Nyquist / f0", &inp, "identities", &format!("H(1)={} H(-1)={} |H(f0)|={} qi={}", gdc, gny, mag(c0), qi));
+        }
+        // poles strictly inside the unit circle (Jury); iho: the non-DC pole
+        let (a0, a1, a2) = (ba[1][0], ba[1][1], ba[1][2]);
+        let stable = if typ == 8 { a0 > 0.0 && a2.abs() < a0 } else { a0 > 0.0 && a2.abs() < a0 && a1.abs() < a0 + a2 };
+        if !stable {
+            rep.violation("coeff-stability", "both poles strictly inside the unit circle", &inp, "|a2| < a0, |a1| < a0 + a2", &format!("{:?}", ba[1]));
+        }
+        // gain is a pure output scale, incl. its sign
+        if i % 4 == 0 {
+            let k = if rng.chance(1, 2) { -1.0 } else { 0.5 + rng.below(100) as f64 / 10.0 };
+            let mut f2 = idsp::iir::Filter::<f64>::default();
+            f2.critical_frequency(f0).gain(gain * k).shelf(shelf).set_shape(shape);
+            let bb = crate::gen::coeff_build(&f2, typ);
+            let poles_same = (0..3).all(|j| bb[1][j].to_bits() == ba[1][j].to_bits());
+            let scaled = (0..3).all(|j| (bb[0][j] - k * ba[0][j]).abs() <= 1e-12 * (k * ba[0][j]).abs().max(numscale * k.abs() * 1e-3));
+            if !poles_same || !scaled {
+                rep.violation("coeff-gain-scale", "gain is a pure output scale and leaves the poles untouched", &format!("{} vs gain*{}", inp, k), &format!("a={:?}", ba[1]), &format!("a={:?} b={:?} vs {:?}", bb[1], bb[0], ba[0]));
+            }
+            rep.count("coeff-gain-scale", 1);
+        }
+        // conversion: nearest representable, invariant (1 LSB) under common scaling
+        if i % 4 == 1 && (ba[0].iter().chain(ba[1][1..].iter())).all(|v| (v / a0).abs() < 1.99) {
+            let bi = idsp::iir::Biquad::<i32>::from(&ba);
+            let c = 0.1 + rng.below(1000) as f64 / 10.0;
+            let sc = [[ba[0][0] * c, ba[0][1] * c, ba[0][2] * c], [ba[1][0] * c, ba[1][1] * c, ba[1][2] * c]];
+            let bs = idsp::iir::Biquad::<i32>::from(&sc);
+            let flat = [ba[0][0], ba[0][1], ba[0][2], ba[1][1], ba[1][2]];
+            for j in 0..5 {
+                let exact = flat[j] / a0 * 1073741824.0;
+                if (bi.ba()[j] as f64 - exact).abs() > 0.5 + 1e-6 || (bi.ba()[j] as i64 - bs.ba()[j] as i64).abs() > 1 {
+                    rep.violation("coeff-quantize", "divide by a0, round to nearest; invariant to within 1 LSB under common scaling", &format!("{} scale {}", inp, c), &format!("{}", exact), &format!("{} / {}", bi.ba()[j], bs.ba()[j]));
+                    break;
+                }
+            }
+            rep.count("coeff-quantize", 5);
+        }
+        rep.distinct += 1;
+    }
+    rep.sample("Filter f0=0.1 Q=0.707 gain=1000 .lowpass()".into());
+}
+
+// ------------------------------------------------------------------ C11 (Lockin)
+fn c11(rng: &mut Rng, thorough: bool, hints: &[Vec<String>], rep: &mut Report) {
+    let _ = hints;
+    let ncfg = if thorough { 400 } else { 48 };
+    let mut cfgs = vec![];
+    for i in 0..ncfg {
+        let a = match i % 4 { 0 => 1i64 << 23, 1 => 1i64 << 30, _ => rng.range(1 << 23, 1 << 30) } as f64;
+        let theta = rng.below(1 << 20) as f64 / (1 << 20) as f64 * std::f64::consts::TAU;
+        let fr = 0.05 + 0.4 * (rng.below(1 << 16) as f64 / 65536.0);
+        let k = match i % 3 { 0 => 1i64 << 20, 1 => 1i64 << 25, _ => rng.range(1 << 20, 1 << 25) } as f64;
+        let p0 = rng.next() as i32;
+        cfgs.push((a, theta, fr, k, p0));
+    }
+    let cr = &cfgs;
+    par(cfgs.len() as u64, |c, l| {
+        let (a, theta, fr, k, p0) = cr[c as usize];
+        let (k0, k1) = ((k * k / 4294967296.0) as i32, (-k * std::f64::consts::SQRT_2) as i32);
+        let df = (fr * 4294967296.0) as i64 as i32;
+        let mut li = Lockin::<Lowpass<2>>::default();
+        let mut lq = Lockin::<Lowpass<2>>::default();
+        let n = (40.0 * 4294967296.0 / k) as usize;
+        let navg = 1 << 14;
+        let mut ph = p0;
+        let (mut sre, mut sim) = (0f64, 0f64);
+        let mut same = true;
+        let r = guard(|| {
+            for j in 0..(n + navg) {
+                ph = ph.wrapping_add(df);
+                let x = (a * ((ph as f64) * std::f64::consts::PI / 2147483648.0 + theta).cos()).round() as i32;
+                let y = li.update(x, ph, &[k0, k1]);
+                let y2 = lq.update_iq(x, Complex::<i32>::from_angle(ph), &[k0, k1]);
+                same &= y == y2;
+                if j >= n {
+                    sre += y.re as f64;
+                    sim += y.im as f64;
+                }
+            }
+        });
+        let inp = format!("Lockin<Lowpass2> A={} theta={} f={} k={} (k0={}, k1={}) start phase {}", a, theta, fr, k, k0, k1, p0);
+        l.count += (n + navg) as u64;
+        if r.is_none() {
+            l.violation("lockin-panic", "no panic for any sample", inp, "values".into(), "PANIC".into());
+            return;
+        }
+        if !same {
+            l.violation("lockin-iq", "update_iq with the LO sample gives exactly the same output as update with its phase", inp.clone(), "equal".into(), "different".into());
+        }
+        let (mre, mim) = (sre / navg as f64, sim / navg as f64);
+        let mag = mre.hypot(mim);
+        let ang = mim.atan2(mre);
+        let mut da = (ang + theta).rem_euclid(std::f64::consts::TAU);
+        if da > std::f64::consts::PI {
+            da -= std::f64::consts::TAU;
+        }
+        let emag = (mag / (a / 2.0) - 1.0).abs();
+        l.max("lockin_mag_relerr", emag);
+        l.max("lockin_angle_err", da.abs());
+        if emag > 1e-3 || da.abs() > 2e-4 {
+            // small amplitudes: the second-order lowpass's static truncation error (~ sqrt2*2^32/k LSB) against A/2
+            let bound = 3.0 * 4294967296.0 / (k * a);
+            let class = if a < 33554432.0 && emag <= 1e-3 && da.abs() <= bound { "lockin-angle-small-amplitude" } else { "lockin-recovery" };
+            l.violation(class, "magnitude A/2 within 1e-3 relative, angle -theta within 2e-4 rad", inp, format!("|mag err| <= 1e-3, |angle err| <= 2e-4 (small-amplitude envelope {:.3e})", bound), format!("mag err {:.3e}, angle err {:.3e}", emag, da));
+        }
+    }, rep);
+    rep.distinct += cfgs.len() as u64;
+    rep.count("lockin-configurations", 0);
+    // equality clause from arbitrary filter states / samples / LO phases (single steps)
+    let n = if thorough { 2_000_000 } else { 200_000 };
+    for _ in 0..n {
+        let st = [[rng.i64() >> 2, rng.i64() >> 2], [rng.i64() >> 2, rng.i64() >> 2]];
+        let (x, p) = (rng.i32(), rng.i32());
+        let k = rng.range(1 << 20, 1 << 25) as f64;
+        let (k0, k1) = ((k * k / 4294967296.0) as i32, (-k * std::f64::consts::SQRT_2) as i32);
+        let mut a = Lockin::<Lowpass<2>>::verif_from_raw([Lowpass::verif_from_raw(st[0]), Lowpass::verif_from_raw(st[1])]);
+        let mut b = Lockin::<Lowpass<2>>::verif_from_raw([Lowpass::verif_from_raw(st[0]), Lowpass::verif_from_raw(st[1])]);
+        let ra = guard(|| a.update(x, p, &[k0, k1]));
+        let rb = guard(|| b.update_iq(x, Complex::<i32>::from_angle(p), &[k0, k1]));
+        if ra != rb {
+            rep.violation("lockin-iq", "update_iq with the LO sample gives exactly the same output as update with its phase", &format!("state {:?} sample {} phase {} k=[{}, {}]", st, x, p, k0, k1), &format!("{:?}", ra), &format!("{:?}", rb));
+        }
+    }
+    rep.count("lockin-iq-single-steps", n);
+    rep.sample("Lockin A=2^23 k=2^21: angle error 3.8e-4 rad (listed small-amplitude finding)".into());
+}
+
+// ------------------------------------------------------------------ C20 (no panic inside the documented domains)
+fn c20(rng: &mut Rng, thorough: bool, hints: &[Vec<String>], rep: &mut Report) {
+    if crate::MODE != 'C' {
+        // the property is about builds with overflow checks and debug assertions
+        rep.count("release-profile-not-applicable", 1);
+        rep.sample("C20 is evaluated in the checked profile only".into());
+        return;
+    }
+    rep.only_panics = true;
+    // the union of the other properties' oracles (their panic clauses are what matters here), plus the entry
+    // points no other property anchors
+    let before = rep.evaluations;
+    c01(rng, false, hints, rep);
+    c02(rng, false, hints, rep);
+    c19(rng, false, hints, rep);
+    c06(rng, false, hints, rep);
+    c07(rng, false, hints, rep);
+    c10(rng, false, hints, rep);
+    c11(rng, false, hints, rep);
+    c12(rng, false, hints, rep);
+    c13(rng, false, hints, rep);
+    c14(rng, false, hints, rep);
+    c16(rng, false, hints, rep);
+    c17(rng, false, hints, rep);
+    c18(rng, false, hints, rep);
+    c03(rng, false, hints, rep);
+    c09(rng, false, hints, rep);
+    c08(rng, false, hints, rep);
+    let _ = before;
+    // Sweep iteration from any (rate, state); Sweep::fit for finite arguments with harmonics, cycles >= 1
+    let n = if thorough { 20_000_000 } else { 2_000_000 };
+    for i in 0..n {
+        let (rate, state) = (rng.i32(), if i % 5 == 0 { i64::MAX - rng.below(1 << 33) as i64 } else { rng.i64() });
+        let mut s = Sweep::new(rate, state);
+        if guard(|| { s.next(); s.next(); }).is_none() {
+            rep.violation("sweep-panic", "Sweep iteration from any (rate, state) never panics", &format!("Sweep::new({}, {}).next()", rate, state), "Some(state)", "PANIC");
+        }
+    }
+    rep.count("sweep-next", 2 * n);
+    for _ in 0..(n / 10) {
+        let stop = rng.below(1000) as f32 / 1000.0 * 0.6 - 0.05;
+        let harmonics = 1.0 + (rng.below(1 << 20) as f32) / if rng.chance(1, 2) { 1.0 } else { 1000.0 };
+        let cycles = 1.0 + (rng.below(1 << 24) as f32) * if rng.chance(1, 4) { 1e6 } else { 1e-3 };
+        let r = guard(|| Sweep::fit(stop, harmonics, cycles));
+        match r {
+            None => rep.violation("sweep-fit-panic", "Sweep::fit for finite arguments with harmonics, cycles >= 1 never panics", &format!("Sweep::fit({}, {}, {})", stop, harmonics, cycles), "Ok/Err", "PANIC"),
+            Some(Ok(mut s)) => {
+                let ok = guard(|| { let _ = (s.rate(), s.delay(2.0), s.octave(), s.decade(), s.state(), s.cycles(), s.continuous(1.0), s.inverse_filter(0.1)); for _ in 0..4 { s.next(); } }).is_some();
+                if !ok {
+                    rep.violation("sweep-panic", "Sweep helpers never panic", &format!("Sweep::fit({}, {}, {})", stop, harmonics, cycles), "values", "PANIC");
+                }
+            }
+            Some(Err(_)) => {}
+        }
+    }
+    rep.count("sweep-fit", n / 10);
+    // AccuOsc over a Sweep
+    for _ in 0..1000 {
+        let mut o = AccuOsc::new(Sweep::new(rng.i32(), rng.i64()));
+        if guard(|| { for _ in 0..16 { o.next(); } }).is_none() {
+            rep.violation("accuosc-panic", "AccuOsc iteration never panics", "AccuOsc::from(Sweep::new(..))", "values", "PANIC");
+        }
+    }
+    // complex helpers except both components MIN
+    for _ in 0..(n / 4) {
+        let (a, b, c, d) = (rng.i32(), rng.i32(), rng.i32(), rng.i32());
+        let z = Complex::new(a, b);
+        let w = Complex::new(c, d);
+        let both_min = |z: Complex<i32>| z.re == i32::MIN && z.im == i32::MIN;
+        let r = guard(|| {
+            if !both_min(z) {
+                let _ = (z.abs_sqr(), z.log2());
+            }
+            let _ = (z.arg(), z.saturating_add(w), z.saturating_sub(w), z.mul_scaled(c), z.mul_scaled(d as i16));
+            if !(both_min(z) && both_min(w)) {
+                let _ = z.mul_scaled(w);
+            }
+        });
+        if r.is_none() {
+            rep.violation("complex-panic", "complex helpers never panic (except operands with both components i32::MIN)", &format!("{:?} {:?}", z, w), "values", "PANIC");
+        }
+    }
+    rep.count("complex-helpers", n / 4);
+    // svf: `Svf` has no public constructor (serde only); not reachable from this harness
+    // Nyquist / Repeat / Cascade filters
+    for _ in 0..(n / 20) {
+        let mut ny = Nyquist::default();
+        let x = rng.i32();
+        if guard(|| { idsp::Filter::update(&mut ny, x, &()); idsp::Filter::update(&mut ny, rng.i32(), &()); idsp::Filter::set(&mut ny, x); idsp::Filter::get(&ny) }).is_none() {
+            rep.violation("filter-panic", "Nyquist filter never panics", &format!("Nyquist.update({})", x), "values", "PANIC");
+        }
+    }
+    rep.sample("Sweep::new(1, i64::MAX).next(); Complex(MIN, 5).abs_sqr(); Dsm::<0>::update(5)".into());
+}
+
